@@ -108,6 +108,9 @@ func vPackNode(t *testing.T, nw *vNet, name string, ip net.IP, c vPackCase, d *v
 		conf.GossipVerifyIncoming = c.Vin
 	}
 	conf.GossipNodes = 1
+	// what is measured here is the packing: the receiver's own cap on queued messages (HandoffQueueDepth 1024, judged
+	// by C13) must not drop part of a burst of 1500 tiny broadcasts
+	conf.HandoffQueueDepth = 1 << 20
 	if c.Enc != "none" {
 		kr, _ := NewKeyring(nil, vWKeys["k1"])
 		conf.Keyring = kr
